@@ -768,7 +768,7 @@ class Seq(Relation):
     coq_case_type = "qcase"
     coq_model = "model_seq"
     coq_imports = ["C07_Model", "C08_Model"]
-    budget = {"quick": 450, "thorough": 8000}
+    budget = {"quick": 450, "thorough": 5000}
     max_cases_per_shard = 100
     anchors = [
         ("haptools/data/genotypes.py", "Genotypes.subset"),
